@@ -21,6 +21,15 @@ Theorem msg_roundtrip : forall key_ok m vs bs (pre suf : bytes),
 Proof. exact msg_roundtrip_l. Qed.
 Print Assumptions msg_roundtrip.
 
+(* Re-encoding what was decoded from an encoding gives the same bytes, and the decode consumed exactly them. *)
+Theorem reencode_identical : forall key_ok m vs bs (pre suf : bytes) vs' o,
+  wf_msg m = true -> msg_ok key_ok m vs = true -> pack_msg key_ok m vs = Ok bs ->
+  (msg_greedy m = false \/ suf = []) ->
+  unpack_msg key_ok m (pre ++ bs ++ suf) (length pre) = Ok (vs', o) ->
+  pack_msg key_ok m vs' = Ok bs /\ o = (length pre + length bs)%nat.
+Proof. exact reencode_identical_l. Qed.
+Print Assumptions reencode_identical.
+
 (* The registry the code builds is the documented wire table. *)
 Theorem registry_is_documented :
   registry_default = documented /\ registry_overlay = documented_overlay.
